@@ -3,6 +3,97 @@
 //! a signature/hash is a tagged record of what was signed/hashed and by which key.
 #![allow(dead_code, unused_variables, non_upper_case_globals, clippy::all)]
 
+/// ALL mutable model state in one static with a unique bit pattern (Kani 0.68 was observed to merge
+/// a `static mut X: u32 = 0` with an immutable constant of the same bits).
+pub struct OsslState {
+    pub magic: u64,
+    pub next_kid: u32,
+    pub last_req_kid: u32,
+    // last ECDSA signature as produced by the model (minimal big-endian r and s)
+    pub sig_r: [u8; 66],
+    pub sig_r_len: usize,
+    pub sig_s: [u8; 66],
+    pub sig_s_len: usize,
+    pub sig_key_kid: u32,
+    pub sig_input_len: usize,
+    // last Signer use
+    pub sign_kid: u32,
+    pub sign_md: u8,
+    pub sign_len: usize,
+    pub sign_count: u32,
+    // knobs set by harnesses: lengths of the next ECDSA r / s (0 = any length 1..=size)
+    pub force_r_len: usize,
+    pub force_s_len: usize,
+    // symbolic public key material handed out (EC x / y, RSA n / e), as minimal vectors
+    pub ec_x: [u8; 66],
+    pub ec_x_len: usize,
+    pub ec_y: [u8; 66],
+    pub ec_y_len: usize,
+    pub rsa_n: [u8; 4],
+    pub rsa_n_len: usize,
+    pub rsa_e: [u8; 4],
+    pub rsa_e_len: usize,
+    // raw EdDSA public key bytes (32 or 57 used)
+    pub ed_pub: [u8; 57],
+}
+pub static mut OSSL: OsslState = OsslState {
+    magic: 0x0551_C0DE_ACED_0002,
+    next_kid: 1,
+    last_req_kid: 0,
+    sig_r: [0; 66],
+    sig_r_len: 0,
+    sig_s: [0; 66],
+    sig_s_len: 0,
+    sig_key_kid: 0,
+    sig_input_len: 0,
+    sign_kid: 0,
+    sign_md: 0,
+    sign_len: 0,
+    sign_count: 0,
+    force_r_len: 0,
+    force_s_len: 0,
+    ec_x: [0; 66],
+    ec_x_len: 0,
+    ec_y: [0; 66],
+    ec_y_len: 0,
+    rsa_n: [0; 4],
+    rsa_n_len: 0,
+    rsa_e: [0; 4],
+    rsa_e_len: 0,
+    ed_pub: [0; 57],
+};
+pub fn st() -> &'static mut OsslState {
+    unsafe { &mut *core::ptr::addr_of_mut!(OSSL) }
+}
+
+/// A Vec<u8> with a concrete capacity (72) and a possibly symbolic length <= 66: the allocation
+/// size stays concrete (a symbolic malloc size makes CBMC run out of memory).
+pub fn vec_cap72(src: &[u8; 66], len: usize) -> Vec<u8> {
+    let mut v: Vec<u8> = Vec::with_capacity(72);
+    unsafe {
+        core::ptr::copy_nonoverlapping(src.as_ptr(), v.as_mut_ptr(), 66);
+        v.set_len(len);
+    }
+    v
+}
+#[cfg(kani)]
+fn sym_minimal(size: usize, forced: usize) -> ([u8; 66], usize) {
+    let a: [u8; 66] = kani::any();
+    let len: usize = kani::any();
+    kani::assume(len >= 1 && len <= size);
+    if forced != 0 {
+        kani::assume(len == forced);
+    }
+    kani::assume(a[0] != 0); // BN_bn2bin is minimal: no leading zero byte
+    (a, len)
+}
+#[cfg(not(kani))]
+fn sym_minimal(size: usize, forced: usize) -> ([u8; 66], usize) {
+    let mut a = [0u8; 66];
+    a[0] = 1;
+    (a, if forced != 0 { forced } else { size })
+}
+
 #[cfg(kani)]
 fn nd_u8() -> u8 { kani::any() }
 #[cfg(not(kani))]
@@ -92,13 +183,31 @@ pub mod bn {
     pub struct MsbOption(pub i32);
     impl MsbOption { pub const MAYBE_ZERO: MsbOption = MsbOption(-1); }
     impl BigNum {
-        pub fn new() -> Result<Self, ErrorStack> { Ok(BigNum { bytes: Vec::new() }) }
-        pub fn to_vec(&self) -> Vec<u8> { self.bytes.clone() }
+        pub fn new() -> Result<Self, ErrorStack> { Ok(BigNum { bytes: Vec::with_capacity(72) }) }
+        /// BN_bn2bin: minimal big-endian bytes. Concrete capacity, possibly symbolic length.
+        /// (every BigNum of the model owns a 72-byte buffer, so the 66-byte copy stays in bounds)
+        pub fn to_vec(&self) -> Vec<u8> {
+            let n = self.bytes.len();
+            assert!(n <= 66 && self.bytes.capacity() >= 66);
+            let mut v: Vec<u8> = Vec::with_capacity(72);
+            unsafe {
+                core::ptr::copy_nonoverlapping(self.bytes.as_ptr(), v.as_mut_ptr(), 66);
+                v.set_len(n);
+            }
+            v
+        }
+        /// BN_bn2binpad: exactly `len` bytes, value right-aligned, error if it does not fit.
         pub fn to_vec_padded(&self, len: i32) -> Result<Vec<u8>, ErrorStack> {
             let len = len as usize;
-            if self.bytes.len() > len { return Err(ErrorStack); }
-            let mut v = vec![0u8; len - self.bytes.len()];
-            v.extend_from_slice(&self.bytes);
+            let n = self.bytes.len();
+            if n > len { return Err(ErrorStack); }
+            let pad = len - n;
+            let mut v = vec![0u8; len];
+            let mut i = 0;
+            while i < len {
+                if i >= pad { v[i] = self.bytes[i - pad]; }
+                i += 1;
+            }
             Ok(v)
         }
         pub fn rand(&mut self, bits: i32, msb: MsbOption, odd: bool) -> Result<(), ErrorStack> { Ok(()) }
@@ -127,8 +236,7 @@ pub mod pkey {
     #[derive(Clone, Debug, PartialEq)]
     pub struct PKey<T> { pub id: Id, pub param: i32, pub kid: u32, pub _t: PhantomData<T> }
     pub type PKeyRef<T> = PKey<T>;
-    pub static mut NEXT_KID: u32 = 1;
-    pub fn fresh_kid() -> u32 { unsafe { let k = NEXT_KID; NEXT_KID += 1; k } }
+    pub fn fresh_kid() -> u32 { let s = st(); let k = s.next_kid; s.next_kid += 1; k }
     fn enc(tag: u8, k: &PKey<impl Sized>) -> Vec<u8> {
         let mut v = vec![tag];
         v.extend_from_slice(&k.id.0.to_be_bytes());
@@ -168,7 +276,12 @@ pub mod pkey {
         pub fn id(&self) -> Id { self.id }
         pub fn rsa(&self) -> Result<rsa::Rsa<T>, ErrorStack> {
             if self.id != Id::RSA { return Err(ErrorStack); }
-            Ok(rsa::Rsa { size: self.param as u32, kid: self.kid, e: BigNum { bytes: vec![1, 0, 1] }, n: BigNum { bytes: vec![0x80 | (self.kid as u8)] }, _t: PhantomData })
+            let s = st();
+            let (n, nl) = sym_minimal(4, 0);
+            let (e, el) = sym_minimal(4, 0);
+            s.rsa_n = [n[0], n[1], n[2], n[3]]; s.rsa_n_len = nl;
+            s.rsa_e = [e[0], e[1], e[2], e[3]]; s.rsa_e_len = el;
+            Ok(rsa::Rsa { size: self.param as u32, kid: self.kid, e: BigNum { bytes: vec_cap72(&e, el) }, n: BigNum { bytes: vec_cap72(&n, nl) }, _t: PhantomData })
         }
         pub fn ec_key(&self) -> Result<ec::EcKey<T>, ErrorStack> {
             if self.id != Id::EC { return Err(ErrorStack); }
@@ -217,8 +330,13 @@ pub mod ec {
     pub type EcPointRef = EcPoint;
     impl EcPoint {
         pub fn affine_coordinates_gfp(&self, g: &EcGroupRef, x: &mut BigNumRef, y: &mut BigNumRef, ctx: &mut BigNumContext) -> Result<(), ErrorStack> {
-            x.bytes = vec![self.kid as u8];
-            y.bytes = vec![!(self.kid as u8)];
+            let size = match g.nid { Nid::X9_62_PRIME256V1 => 32, Nid::SECP384R1 => 48, _ => 66 };
+            let s = st();
+            let (xa, xl) = sym_minimal(size, 0);
+            let (ya, yl) = sym_minimal(size, 0);
+            s.ec_x = xa; s.ec_x_len = xl; s.ec_y = ya; s.ec_y_len = yl;
+            x.bytes = vec_cap72(&xa, xl);
+            y.bytes = vec_cap72(&ya, yl);
             Ok(())
         }
     }
@@ -243,7 +361,13 @@ pub mod ecdsa {
     pub struct EcdsaSig { pub r: BigNum, pub s: BigNum }
     impl EcdsaSig {
         pub fn sign<T>(data: &[u8], key: &ec::EcKeyRef<T>) -> Result<Self, ErrorStack> {
-            Ok(EcdsaSig { r: BigNum { bytes: vec![key.kid as u8] }, s: BigNum { bytes: vec![data.len() as u8] } })
+            let size = match key.group.nid { Nid::X9_62_PRIME256V1 => 32, Nid::SECP384R1 => 48, _ => 66 };
+            let s = st();
+            let (ra, rl) = sym_minimal(size, s.force_r_len);
+            let (sa, sl) = sym_minimal(size, s.force_s_len);
+            s.sig_r = ra; s.sig_r_len = rl; s.sig_s = sa; s.sig_s_len = sl;
+            s.sig_key_kid = key.kid; s.sig_input_len = data.len();
+            Ok(EcdsaSig { r: BigNum { bytes: vec_cap72(&ra, rl) }, s: BigNum { bytes: vec_cap72(&sa, sl) } })
         }
         pub fn r(&self) -> &BigNumRef { &self.r }
         pub fn s(&self) -> &BigNumRef { &self.s }
@@ -262,8 +386,14 @@ pub mod sign {
             Ok(Signer { kid: key.kid, md: MessageDigest::null(), len: 0, _p: PhantomData })
         }
         pub fn update(&mut self, d: &[u8]) -> Result<(), ErrorStack> { self.len += d.len(); Ok(()) }
-        pub fn sign_to_vec(&self) -> Result<Vec<u8>, ErrorStack> { Ok(vec![self.kid as u8, self.md.0, self.len as u8]) }
-        pub fn sign_oneshot_to_vec(&mut self, d: &[u8]) -> Result<Vec<u8>, ErrorStack> { Ok(vec![self.kid as u8, 0, d.len() as u8]) }
+        pub fn sign_to_vec(&self) -> Result<Vec<u8>, ErrorStack> {
+            let s = st(); s.sign_kid = self.kid; s.sign_md = self.md.0; s.sign_len = self.len; s.sign_count += 1;
+            Ok(vec![self.kid as u8, self.md.0, self.len as u8])
+        }
+        pub fn sign_oneshot_to_vec(&mut self, d: &[u8]) -> Result<Vec<u8>, ErrorStack> {
+            let s = st(); s.sign_kid = self.kid; s.sign_md = 0; s.sign_len = d.len(); s.sign_count += 1;
+            Ok(vec![self.kid as u8, 0, d.len() as u8])
+        }
     }
 }
 
@@ -298,7 +428,6 @@ use stack::*;
 
 pub mod x509 {
     use super::*;
-    pub static mut LAST_REQ_KID: u32 = 0;
     #[derive(Clone, Debug, PartialEq)]
     pub enum GeneralName { Dns(String), Ip(Vec<u8>), Other }
     impl GeneralName {
@@ -338,7 +467,7 @@ pub mod x509 {
         pub fn x509v3_context<'a>(&'a self, conf: Option<&'a ()>) -> X509v3Context { X509v3Context }
         pub fn add_extensions(&mut self, s: &StackRef<X509Extension>) -> Result<(), ErrorStack> { self.r.exts.extend(s.items.iter().cloned()); Ok(()) }
         pub fn sign<T>(&mut self, k: &PKeyRef<T>, md: MessageDigest) -> Result<(), ErrorStack> { self.r.signed_by = k.kid; self.r.digest = md.0; Ok(()) }
-        pub fn build(self) -> X509Req { unsafe { LAST_REQ_KID = self.r.pubkey_kid; } self.r }
+        pub fn build(self) -> X509Req { st().last_req_kid = self.r.pubkey_kid; self.r }
     }
     impl X509Req {
         pub fn to_der(&self) -> Result<Vec<u8>, ErrorStack> { Ok(vec![b'R', self.pubkey_kid as u8]) }
